@@ -933,6 +933,15 @@ func (c *EvalCtx) callExpr(e *Expr) TV {
 		if strings.HasPrefix(name, "ufb_") {
 			return TV{V: tb.UF(name, BoolSort, ts...), T: boolT}
 		}
+		if name == "uf_hupd" && len(ts) == 4 && ts[3].IsConst() && ts[3].Val.IsInt64() && ts[3].Val.Int64() >= 0 && ts[3].Val.Int64() <= 32 {
+			// a hash update over a short constant-length range is the fold of the per-byte step,
+			// so that it depends on the covered bytes only
+			h := ts[0]
+			for i := int64(0); i < ts[3].Val.Int64(); i++ {
+				h = tb.UF("uf_hstep", h.Sort, h, x.sel(ts[1], x.iadd(ts[2], x.idx(i))))
+			}
+			return TV{V: h, T: types.Typ[types.Int]}
+		}
 		rt := types.Typ[types.Int]
 		if strings.HasPrefix(name, "uf_u32_") {
 			rt = types.Typ[types.Uint32]
